@@ -1,7 +1,127 @@
+/-
+C34  Telegram callbacks see exactly the telegrams they subscribed to.
+Property theorems only; the filter semantics come from C02 (`denotes`).
+-/
 import XknxVerif.Model.Callbacks
+import XknxVerif.Props.C02
+
 namespace XknxVerif.Props.C34
-open XknxVerif.Callbacks
-theorem placeholder_devices_once_incoming (fmt) (regs : List Reg) (t : Telegram) (h : t.outgoing = false) :
-    (process fmt regs t).2.getLast? = some .devices := by
-  simp [process, h]
+open XknxVerif XknxVerif.Callbacks XknxVerif.Address XknxVerif.AddressFilter
+
+/-- (1) Decision logic stated outright: a registration is called for a telegram exactly when the
+telegram is incoming or the registration asked for outgoing ones, and it gave neither filters nor
+addresses (match-all) or the destination is a group / internal address that one of its filters
+matches or that is in its address list. -/
+theorem called_iff (fmt : Fmt) (r : Reg) (t : Telegram) :
+    called fmt r t = true ↔
+      (t.outgoing = false ∨ r.matchOutgoing = true) ∧
+      (r.matchAll = true ∨ ∃ a, t.dst = .dev a ∧
+        ((∃ f ∈ r.filters, filterHit fmt f a = true) ∨ a ∈ r.addrs)) := by
+  unfold called
+  rcases r with ⟨id, ma, mo, fs, as, beh⟩
+  rcases t with ⟨out, dst⟩
+  cases out <;> cases mo <;> cases ma <;> cases dst <;>
+    simp [List.any_eq_true, List.contains_iff_mem]
+
+/-- (1') The filter part is C02's denotation: for a pattern of the documented grammar in the
+matching notation, the registration's filter hits a group address exactly when the pattern
+denotes it. -/
+theorem filterHit_denotes (p : PatternP) (hp : p.WF) (fmt : Fmt) (hf : fmt.levels = p.length) :
+    ∃ f, parseFilter p.render = .ok f ∧ ∀ raw, filterHit fmt f (.ga raw) = denotes p fmt raw := by
+  obtain ⟨f, h1, h2⟩ := C02.filter_matches_what_pattern_denotes p hp fmt hf
+  refine ⟨f, h1, fun raw => ?_⟩
+  have := h2 raw
+  simp only [matchFilter, toDev] at this
+  simp [filterHit, this]
+
+/-- (2) Dispatch: the callbacks called for a telegram are exactly the registrations (as of the start
+of the dispatch) whose filter admits it, each once, in registration order — whatever any callback
+does (raise, unregister itself or others). -/
+theorem runCbs_calls (fmt : Fmt) (t : Telegram) (snapshot regs : List Reg) :
+    (runCbs fmt t snapshot regs).1 = (snapshot.filter (called fmt · t)).map (fun r => Ev.call r.id) := by
+  induction snapshot generalizing regs with
+  | nil => rfl
+  | cons r rs ih =>
+    unfold runCbs
+    by_cases h : called fmt r t = true
+    · simp only [h, ↓reduceIte, List.filter_cons, List.map_cons]
+      rw [← ih]
+    · simp only [h, Bool.false_eq_true, ↓reduceIte, List.filter_cons]
+      rw [ih]
+
+/-- (2') Exactly once: with distinct registration ids, a registration is called once if `called`
+holds and not at all otherwise. -/
+theorem call_count (fmt : Fmt) (t : Telegram) (regs : List Reg) (hnd : (regs.map (·.id)).Nodup)
+    (r : Reg) (hr : r ∈ regs) :
+    ((runCbs fmt t regs regs).1.count (.call r.id)) = if called fmt r t then 1 else 0 := by
+  rw [runCbs_calls]
+  induction regs with
+  | nil => simp at hr
+  | cons x xs ih =>
+    simp only [List.map_cons, List.nodup_cons] at hnd
+    obtain ⟨hx, hxs⟩ := hnd
+    rcases List.mem_cons.mp hr with rfl | hmem
+    · have hnot : ∀ y ∈ xs, Ev.call y.id ≠ Ev.call r.id := by
+        intro y hy h; injection h with h; exact hx (h ▸ List.mem_map_of_mem hy)
+      have hz : ((xs.filter (called fmt · t)).map (fun r => Ev.call r.id)).count (.call r.id) = 0 := by
+        rw [List.count_eq_zero]
+        intro hm
+        obtain ⟨y, hy, he⟩ := List.mem_map.mp hm
+        exact hnot y (List.mem_filter.mp hy).1 he
+      by_cases hc : called fmt r t = true
+      · simp [List.filter_cons, hc, hz]
+      · simp [List.filter_cons, hc, hz]
+    · have hne : Ev.call x.id ≠ Ev.call r.id := by
+        intro h; injection h with h; exact hx (h ▸ List.mem_map_of_mem hmem)
+      by_cases hc : called fmt x t = true
+      · simp only [List.filter_cons, hc, ↓reduceIte, List.map_cons]
+        rw [List.count_cons_of_ne hne]
+        exact ih hxs hmem
+      · simp only [List.filter_cons, hc, Bool.false_eq_true, ↓reduceIte]
+        exact ih hxs hmem
+
+/-- (3) A raising callback changes nothing observable: the events of a dispatch do not depend on
+which callbacks raise. -/
+def setRaises (f : Nat → Bool) (r : Reg) : Reg := { r with beh := { r.beh with raises := f r.id } }
+
+theorem called_setRaises (fmt : Fmt) (f : Nat → Bool) (r : Reg) (t : Telegram) :
+    called fmt (setRaises f r) t = called fmt r t := rfl
+
+theorem raising_callbacks_change_nothing (fmt : Fmt) (f : Nat → Bool) (regs : List Reg) (t : Telegram) :
+    (process fmt (regs.map (setRaises f)) t).2 = (process fmt regs t).2 := by
+  simp only [process, runCbs_calls]
+  have : ((regs.map (setRaises f)).filter (called fmt · t)).map (fun r => Ev.call r.id)
+      = (regs.filter (called fmt · t)).map (fun r => Ev.call r.id) := by
+    induction regs with
+    | nil => rfl
+    | cons r rs ih =>
+      simp only [List.map_cons]
+      by_cases hc : called fmt r t = true
+      · simp only [List.filter_cons, called_setRaises, hc, ↓reduceIte, List.map_cons, ih]
+        simp [setRaises]
+      · simp only [List.filter_cons, called_setRaises, hc, Bool.false_eq_true, ↓reduceIte, ih]
+  rw [this]
+
+/-- (4) Device processing runs exactly once per processed telegram, whatever the callbacks do;
+for an incoming telegram after the callbacks, for an outgoing one before them. -/
+theorem devices_once (fmt : Fmt) (regs : List Reg) (t : Telegram) :
+    (process fmt regs t).2.count .devices = 1 := by
+  simp only [process, runCbs_calls]
+  have hz : ((regs.filter (called fmt · t)).map (fun r => Ev.call r.id)).count .devices = 0 := by
+    rw [List.count_eq_zero]
+    intro hm
+    obtain ⟨y, _, he⟩ := List.mem_map.mp hm
+    cases he
+  cases t.outgoing <;> simp [List.count_append, hz]
+
+/-- (5) Over any telegram stream: each telegram's calls are the filter of the registrations current
+at that telegram (`runAll` threads the registration list through `process`). -/
+theorem stream_calls (fmt : Fmt) (t : Telegram) (ts : List Telegram) (regs : List Reg) :
+    runAll fmt regs (t :: ts) = renderEvs (process fmt regs t).2 :: runAll fmt (process fmt regs t).1 ts := rfl
+
+/-! Non-vacuity -/
+example : called .long ⟨0, false, false, [], [.ga 2305], ⟨false, []⟩⟩ ⟨false, .dev (.ga 2305)⟩ = true := by decide
+example : (process .long [⟨0, true, false, [], [], ⟨true, [0]⟩⟩, ⟨1, true, true, [], [], ⟨false, []⟩⟩] ⟨false, .dev (.ga 1)⟩)
+    = ([⟨1, true, true, [], [], ⟨false, []⟩⟩], [.call 0, .call 1, .devices]) := by decide
+
 end XknxVerif.Props.C34
